@@ -11,6 +11,7 @@ import (
 	"time"
 
 	"github.com/rulego/streamsql"
+	"github.com/rulego/streamsql/functions"
 	"github.com/rulego/streamsql/types"
 )
 
@@ -29,18 +30,23 @@ type LifeScenario struct {
 }
 
 var lifeSQL = map[string]string{
-	"direct":   "SELECT id, v FROM stream WHERE v >= 0",
-	"count":    "SELECT count(*) AS c, sum(v) AS s FROM stream GROUP BY CountingWindow(3)",
-	"tumbling": "SELECT g, count(*) AS c FROM stream GROUP BY g, TumblingWindow('1s') WITH (TIMESTAMP='ts', TIMEUNIT='ms')",
-	"cep":      "SELECT * FROM stream MATCH_RECOGNIZE (PARTITION BY g ORDER BY ts MEASURES COUNT(*) AS n, FIRST(id) AS f PATTERN (A+) DEFINE A AS v > 0)",
-	"analytic": "SELECT id, lag(v) AS p, acc_sum(v) AS s FROM stream",
-	"sliding":  "SELECT g, count(*) AS c FROM stream GROUP BY g, SlidingWindow('2s','1s') WITH (TIMESTAMP='ts', TIMEUNIT='ms')",
-	"session":  "SELECT g, count(*) AS c FROM stream GROUP BY g, SessionWindow('1s') WITH (TIMESTAMP='ts', TIMEUNIT='ms', MAXOUTOFORDERNESS='400ms')",
-	"global":   "SELECT g, count(*) AS c, sum(v) AS s FROM stream GROUP BY g, GLOBAL WINDOW TRIGGER WHEN count(*) >= 3",
-	"ptumble":  "SELECT g, count(*) AS c FROM stream GROUP BY g, TumblingWindow('15ms')",
-	"pslide":   "SELECT g, count(*) AS c FROM stream GROUP BY g, SlidingWindow('30ms','10ms')",
-	"psession": "SELECT g, count(*) AS c FROM stream GROUP BY g, SessionWindow('10ms')",
-	"late":     "SELECT g, count(*) AS c FROM stream GROUP BY g, TumblingWindow('1s') WITH (TIMESTAMP='ts', TIMEUNIT='ms', MAXOUTOFORDERNESS='200ms', ALLOWEDLATENESS='2s', IDLETIMEOUT='50ms')",
+	"direct":        "SELECT id, v FROM stream WHERE v >= 0",
+	"count":         "SELECT count(*) AS c, sum(v) AS s FROM stream GROUP BY CountingWindow(3)",
+	"tumbling":      "SELECT g, count(*) AS c FROM stream GROUP BY g, TumblingWindow('1s') WITH (TIMESTAMP='ts', TIMEUNIT='ms')",
+	"cep":           "SELECT * FROM stream MATCH_RECOGNIZE (PARTITION BY g ORDER BY ts MEASURES COUNT(*) AS n, FIRST(id) AS f PATTERN (A+) DEFINE A AS v > 0)",
+	"analytic":      "SELECT id, lag(v) AS p, acc_sum(v) AS s FROM stream",
+	"sliding":       "SELECT g, count(*) AS c FROM stream GROUP BY g, SlidingWindow('2s','1s') WITH (TIMESTAMP='ts', TIMEUNIT='ms')",
+	"session":       "SELECT g, count(*) AS c FROM stream GROUP BY g, SessionWindow('1s') WITH (TIMESTAMP='ts', TIMEUNIT='ms', MAXOUTOFORDERNESS='400ms')",
+	"global":        "SELECT g, count(*) AS c, sum(v) AS s FROM stream GROUP BY g, GLOBAL WINDOW TRIGGER WHEN count(*) >= 3",
+	"ptumble":       "SELECT g, count(*) AS c FROM stream GROUP BY g, TumblingWindow('15ms')",
+	"pslide":        "SELECT g, count(*) AS c FROM stream GROUP BY g, SlidingWindow('30ms','10ms')",
+	"psession":      "SELECT g, count(*) AS c FROM stream GROUP BY g, SessionWindow('10ms')",
+	"boom_direct":   "SELECT id, vboom(v) AS b FROM stream",
+	"boom_where":    "SELECT id FROM stream WHERE vboom(v) > -5",
+	"boom_count":    "SELECT count(*) AS c, sum(vboom(v)) AS s FROM stream GROUP BY CountingWindow(2)",
+	"boom_global":   "SELECT g, count(*) AS c, sum(vboom(v)) AS s FROM stream GROUP BY g, GLOBAL WINDOW TRIGGER WHEN count(*) >= 2",
+	"boom_analytic": "SELECT id, lag(vboom(v)) AS p FROM stream",
+	"late":          "SELECT g, count(*) AS c FROM stream GROUP BY g, TumblingWindow('1s') WITH (TIMESTAMP='ts', TIMEUNIT='ms', MAXOUTOFORDERNESS='200ms', ALLOWEDLATENESS='2s', IDLETIMEOUT='50ms')",
 }
 
 // engineGoroutines counts goroutines whose stack shows engine code (not the harness).
@@ -64,7 +70,22 @@ func engineGoroutines() (int, string) {
 }
 
 // RunLife runs one lifecycle scenario. It must be the only scenario running in the process (goroutine accounting).
+var boomOnce sync.Once
+
+func registerBoom() {
+	boomOnce.Do(func() {
+		_ = functions.RegisterCustomFunction("vboom", functions.TypeMath, "verif", "panics when its argument is 3", 1, 1,
+			func(ctx *functions.FunctionContext, args []any) (any, error) {
+				if fmt.Sprint(args[0]) == "3" {
+					panic("vboom: injected panic of a user function")
+				}
+				return args[0], nil
+			})
+	})
+}
+
 func RunLife(sc LifeScenario) (evs []Ev, inconclusive string) {
+	registerBoom()
 	in := NewInst()
 	defer in.Close()
 	var seq int64 // atomic order of API-level events: taken as the FIRST statement of a sink / right AFTER a call returns
@@ -149,6 +170,9 @@ func RunLife(sc LifeScenario) (evs []Ev, inconclusive string) {
 	if sc.Directed == "syncstop" {
 		s.AddSyncSink(mkSink("s1", "park"))
 		s.AddSyncSink(mkSink("s2", "fast"))
+	} else if sc.Directed == "rowpanic" {
+		s.AddSyncSink(mkSink("s1", "fast"))
+		s.AddSink(mkSink("a1", "fast"))
 	} else if sc.Directed == "stopgrace" {
 		s.AddSyncSink(mkSink("s1", "park"))
 		s.AddSink(mkSink("a1", "fast"))
@@ -224,6 +248,16 @@ func RunLife(sc LifeScenario) (evs []Ev, inconclusive string) {
 			log(Ev{"e": "deadlock", "q": atomic.AddInt64(&seq, 1)})
 		}
 		time.Sleep(30 * time.Millisecond)
+	case "rowpanic":
+		// a user function panics on some rows (v = 3: every fifth row): the rows after them are still processed
+		for i := 1; i <= 20; i++ {
+			guard("Emit", func() { s.Emit(row(i)) })
+			time.Sleep(2 * time.Millisecond)
+		}
+		time.Sleep(150 * time.Millisecond)
+		want := map[string]int64{"boom_direct": 14, "boom_where": 14, "boom_count": 6, "boom_global": 4, "boom_analytic": 14}[sc.Kind]
+		log(Ev{"e": "rowpanic", "q": atomic.AddInt64(&seq, 1), "got": atomic.LoadInt64(&sinkCalls) / 2, "want": want}) // two sinks (s1, a1) see every result
+		stop(1)
 	case "afterstop":
 		for i := 1; i <= 4; i++ { // v = 0, 1, 2, 3: for the CEP query an A+ run is still open at Stop and must be flushed
 			guard("Emit", func() { s.Emit(row(i)) })
